@@ -52,14 +52,15 @@ theorem write_int_footprint (p : Prog) (B : Nat) (hp : Placed p B)
 proof establishes instruction by instruction) or reports `stack_overflow` before executing any
 statement — there is no third possibility, for any stack size (including 0), argument vector and
 word size. -/
-theorem core_stack_check_exact (cf : Core.Config) (params : List String) (args : List Int) (body : Core.S)
+theorem core_stack_check_exact (cf : Core.Config) (args : List Int) (pr : Core.CProg)
     (hw : 2 ≤ cf.w) (hck : cf.checked = true)
-    (hB : Core.funcLen cf.checked body + stdlibLength < 256 ^ cf.w) (hSE : Core.F0 cf args < 256 ^ cf.w)
-    (hsmall : cf.stackWords * cf.w + args.length * cf.w + cf.w < Core.pkS cf.w (Core.entryOff cf.w params) body)
-    (hpkM : Core.pkS cf.w (Core.entryOff cf.w params) body < 256 ^ cf.w) :
-    ∃ mEnd, Exec (sphinx (Core.coreProg cf params body)) (Core.coreInit cf args body)
-      [Ev.flag "stack_overflow", Ev.flag "error"] ⟨tntPc (Core.funcLen cf.checked body), mEnd⟩ :=
-  let ⟨m, h, _⟩ := Core.core_overflow cf params args body hw hck hB hSE hsmall hpkM
+    (hB : Core.progLen cf.checked pr + stdlibLength < 256 ^ cf.w) (hSE : Core.F0 cf args < 256 ^ cf.w)
+    (hnd : pr.params.Nodup) (hlen : args.length = pr.params.length)
+    (hsmall : Core.roomOf cf args < Core.pkS cf.w (Core.entryOff cf.w pr.params) pr.body)
+    (hpkM : Core.pkS cf.w (Core.entryOff cf.w pr.params) pr.body < 256 ^ cf.w) :
+    ∃ mEnd, Exec (sphinx (Core.coreProg cf pr)) (Core.coreInit cf args pr)
+      [Ev.flag "stack_overflow", Ev.flag "error"] ⟨tntPc (Core.progLen cf.checked pr), mEnd⟩ :=
+  let ⟨m, h, _⟩ := Core.core_overflow cf args pr hw hck hB hSE hnd hlen hsmall hpkM
   ⟨m, h⟩
 
 /-- the digit buffer the compiler accounts for (`(8w-1)·30103/100000 + 1` bytes) is long enough for
